@@ -332,8 +332,12 @@ def release_rules(ctx):
             (ev[0] == 'call' and kind(ev[1][2]) == 'attr' and
              ev[1][2][2] in ('remove', 'pop'))
             for ev in iter_events(p.trace))
-        nonexist = any(kind(c) == 'cmp' and c[3] == NONE and
-                       ((c[1] == 'is') == pol) for c, pol in p.cond)
+        nonexist = any(
+            (kind(c) == 'cmp' and c[3] == NONE and ((c[1] == 'is') == pol))
+            or (kind(c) == 'cmp' and c[1] in ('in', 'not in') and
+                c[2] == name and c[3] == ('attr', selft, 'busNames') and
+                ((c[1] == 'not in') == pol))
+            for c, pol in p.cond)
         is_owner = None
         in_queue = None
         for c, pol in p.cond:
@@ -374,6 +378,12 @@ def release_rules(ctx):
             ev[1][2][2] == 'pop' and kind(ev[1][2][1]) == 'attr' and
             ev[1][2][1][2] == 'busNames' and ev[1][2][1][1] != selft
             for ev in iter_events(p.trace))
+        # ... or the path established that it records nothing
+        okc = okc or any(
+            kind(c) == 'cmp' and c[1] in ('in', 'not in') and c[2] == name
+            and kind(c[3]) == 'attr' and c[3][2] == 'busNames' and
+            c[3][1] != selft and ((c[1] == 'not in') == pol)
+            for c, pol in p.cond)
         ctx.ob('C13.D3', rl.qualname, 'released-forgets-name', okc,
                'after RELEASED the connection must no longer record the '
                'name (it neither owns nor waits for it)')
